@@ -62,7 +62,7 @@ def check(ctx):
                'validating decode present but %s' % ('its input does not derive from the reply' if not from_reply else 'its failure is unwrapped / not propagated'))
         inst = t.get('callee_inst', '')
         m = re.search(r'OrSWotSet::<([^>]*)>', inst)
-        decode_type = 'OrSWotSet<%s>' % m.group(1) if m else (t.get('gargs') or ['?'])[0]
+        decode_type = 'OrSWotSet<%s>' % m.group(1) if m else ([g for g in (t.get('gargs') or []) if 'OrSWotSet' in g] or ['?'])[0]
     # ---- V2 ---------------------------------------------------------------------
     ser = [b for b in facts.bodies.values() if b.kind == 'coroutine' and b.name == EC + 'keyspace::actor::KeyspaceActor::on_serialize::{closure#0}']
     if not ser:
